@@ -96,6 +96,7 @@ class Env:
             r'^lsp_server::Response::new_ok': st_new_ok,
             r'^lsp_server::Response::new_err': st_new_err,
             r'^lsp_server::Notification::new': st_notif_new,
+            r'^lsp_server::Request::new': lambda M, fr, c, a: mkstruct(P, 'Request', id=a[0], method=a[1], params=a[2]),
             r'^lsp_server::(Request|Notification)::extract': st_extract,
             r'^<lsp_server::(RequestId|Notification|Request) as std::clone::Clone>::clone$': lambda M, fr, c, a: deep_clone(M.deref(a[0])),
             r'^<lsp_types::Url as std::clone::Clone>::clone$': lambda M, fr, c, a: deep_clone(M.deref(a[0])),
